@@ -41,6 +41,8 @@ type EvictPlan struct {
 	PreLimit   int64        `json:"pre_limit,omitempty"`    // with NewLimit: another value is set first, NewLimit right behind it (two notifications in flight)
 	NewIntMs   int64        `json:"new_interval,omitempty"` // interval changed at run time before the trigger
 	IntBack    bool         `json:"interval_back,omitempty"` // with NewIntMs: the interval is then set back to the one the cache started with
+	GapUs      int64        `json:"gap_us,omitempty"`       // time between two population stores in microseconds (default 2000)
+	ShortenIdx int          `json:"shorten,omitempty"`      // tick: after the first complete cycle the lifetime of entry ShortenIdx-1 is cut to 1 ms through UpdateMetadata (what a revalidation does with a shorter default)
 	Trigger    string       `json:"trigger"`                // "store" | "tick"
 	TrigSize   int          `json:"trig_size"`
 	Interferer int          `json:"interferer"`     // 0 none; else size of a slow concurrent store on another key
@@ -110,6 +112,13 @@ func genEvictPlan(r *rand.Rand) *EvictPlan {
 	}
 	if r.IntN(4) == 0 {
 		p.Interferer = 600 * evKiB
+	}
+	if p.Trigger == "tick" && r.IntN(4) == 0 {
+		p.ShortenIdx = 1 + r.IntN(n)
+	}
+	if r.IntN(4) == 0 {
+		// a burst: the population arrives within one or two milliseconds
+		p.GapUs = []int64{300, 50, 7}[r.IntN(3)]
 	}
 	return p
 }
@@ -213,7 +222,11 @@ func runEvictPlan(t *testing.T, planAny any, ctl Ctl) *Result {
 				} else if ent != nil && ent.Data != nil {
 					ent.Data.Close()
 				}
-				s.WaitUntil("harness:ev-gap", time.Now().Add(2*time.Millisecond))
+				gap := 2 * time.Millisecond
+				if p.GapUs > 0 {
+					gap = time.Duration(p.GapUs) * time.Microsecond
+				}
+				s.WaitUntil("harness:ev-gap", time.Now().Add(gap))
 			}
 			base := time.Now()
 			// accesses in time order
@@ -237,6 +250,15 @@ func runEvictPlan(t *testing.T, planAny any, ctl Ctl) *Result {
 				}
 			}
 			s.WaitUntil("harness:ev-settle", base.Add(3100*time.Millisecond))
+			if p.ShortenIdx > 0 {
+				// one complete cycle over the population first, then one entry's lifetime is cut short
+				for i := 0; i < 400 && metrics.Global.Cache.CleanupRuns.Get() == 0; i++ {
+					s.WaitUntil("harness:ev-first-cycle", time.Now().Add(250*time.Millisecond))
+				}
+				if err := c.UpdateMetadata(keys[p.ShortenIdx-1], func(m *cache.EntryMetadata[CMeta]) { m.Expires = time.Now().Add(time.Millisecond) }); err == nil {
+					res.probe("lifetime_cut_short_after_a_cycle")
+				}
+			}
 			if p.NewLimit > 0 {
 				// with PreLimit: several changes right behind one another, the wanted value last; every
 				// change has its own notification task, and any of them may be the last one to run
@@ -535,7 +557,7 @@ func judgeEvictOrder(p *EvictPlan, res *Result, desc string, before evSnap, surv
 		}
 		for _, y := range lruEvicted {
 			bx, by := before[x], before[y]
-			older := by.LastAccess.Sub(bx.LastAccess) >= time.Millisecond      // x strictly less recently used
+			older := by.LastAccess.After(bx.LastAccess)                        // x strictly less recently used, by however little
 			notNewer := !bx.LastAccess.After(by.LastAccess)                    // x not more recently used
 			bigger := bx.Size/evMiB > by.Size/evMiB                            // strictly heavier in the weight's resolution
 			notSmaller := bx.Size >= by.Size && bx.Size/evMiB >= by.Size/evMiB // at least as heavy
